@@ -161,6 +161,10 @@ def run_case(case):
         table = {'resource-name': 'res', 'mode': mode}
         if mode == 'update' and not use_pk:
             table['update_keys'] = list(keys)
+        elif mode != 'update' and not use_pk and rng.random() < 0.5:
+            # documented as "only applicable for the update mode": a config that still carries it must behave the same
+            table['update_keys'] = list(keys)
+            cov['config']['update_keys_given_in_%s_mode' % mode] = 1
         kw = {'batch_size': batch, 'use_bloom_filter': bloom}
         if flags:
             kw.update(updated_column='_upd', updated_id_column='_upd_id')
